@@ -424,6 +424,16 @@ def _model_bundle_new(se, de, life, t, seq, data):
                 cs=[dict(type=1, num=1, flags=0, crc=("N",), data=("DATA", data))])
 
 
+def _undecided_eid_text(op):
+    """bundle_new_default takes endpoint IDs as TEXT: a text C10 neither requires to be accepted nor to be rejected (a '+' sign or
+    leading zeros in ipn numbers, dtn://node without the trailing slash) may be taken or refused"""
+    from props import c10
+    try:
+        return any(c10.classify_text(bytes.fromhex(x[1:]))[0].startswith("other-") for x in op[1:3])
+    except ValueError:
+        return True
+
+
 def oracle(line_, out, mode):
     if not _BUF:
         corpus()
@@ -452,7 +462,7 @@ def oracle(line_, out, mode):
             if name == "NEW":
                 a = new_args(bytes.fromhex(op[1][1:]), bytes.fromhex(op[2][1:]))
                 src = objs.get(int(op[4]))
-                if a is None or (src is not None and src["bytes"] is None) or int(op[5]) < OFFSET:
+                if a is None or (src is not None and src["bytes"] is None) or int(op[5]) < OFFSET or _undecided_eid_text(op):
                     return None      # caller error (documented by the unwraps / asserts of bundle_new_default)
                 return "bundle_new_default aborts the process on valid arguments"
             if name == "META":
@@ -510,7 +520,7 @@ def oracle(line_, out, mode):
             if src is None:
                 return None
             if a is None or src["bytes"] is None or int(op[5]) < OFFSET:
-                return "bundle_new_default returned on invalid arguments (model of the caller errors is wrong?)"
+                return None      # a caller error: the property does not say what happens (the pinned code aborts; NULL is just as good)
             if r[0] != "H%d" % nxt or d < 1:
                 return "bundle_new_default did not return a fresh bundle"
             now = int(op[5]) - OFFSET
@@ -597,7 +607,20 @@ def known_class(line_, out):
 
 def same(line_, io, mo):
     # helper_rnd_bundle is random: the model cannot know the bytes (BADCASE on the model side), the oracle judges the line
-    return " RND" in line_ and mo == "BADCASE"
+    if " RND" in line_ and mo == "BADCASE":
+        return True
+    # caller errors (invalid arguments of bundle_new_default, calls on NULL handles): the model follows the pinned code and predicts an
+    # abort; the property does not say what happens there, so from the first call the model answers with ABORT on, nothing is compared
+    if io and mo and io.startswith("OK") and mo.startswith("OK"):
+        a, b = io[3:].split(" ; "), mo[3:].split(" ; ")
+        ops = _ops_of(line_) or []
+        for i, (x, y) in enumerate(zip(a, b)):
+            if x != y:
+                if i < len(ops) and ops[i][0] == "NEW" and _undecided_eid_text(ops[i]):
+                    return True
+                return y.split(" ")[0] == "ABORT"
+        return len(a) != len(b) and len(b) < len(a) and False
+    return False
 
 
 def classify(line_, out):
